@@ -382,8 +382,8 @@ MUTANTS = [
      'find': '                    # the lock is released in the finally clause\n                    return\n',
      'replace': '                    self.lock.release()\n                    return\n'},
     {'name': 'disjoint-extract-finally-removed', 'file': DJ, 'rule': 'R1',
-     'find': '            try:\n                graph = self.graphs[graph_id]\n            finally:\n                self.lock.release()\n',
-     'replace': '            graph = self.graphs[graph_id]\n            self.lock.release()\n'},
+     'find': '                return self.graphs[graph_id].copy()\n            finally:\n                self.lock.release()\n',
+     'replace': '                ret = self.graphs[graph_id].copy()\n            except KeyError:\n                raise\n            self.lock.release()\n            return ret\n'},
     {'name': 'shared-add_graph-calls-locking-del_graph', 'file': NX, 'rule': 'R2', 'count': 2,
      'find': '                    self.__del_graph_nl(graph_id)\n', 'replace': '                    self.del_graph(graph_id)\n'},
     {'name': 'shared-blank-node-return-after-release', 'file': NX, 'rule': 'R3',
